@@ -1247,3 +1247,20 @@ pub(crate) mod tests {
         );
     }
 }
+
+/// Forwarders to private functions for external verification harnesses. Adds no behaviour.
+#[cfg(feature = "verif-hooks")]
+pub mod verif_hooks {
+    use super::*;
+
+    pub fn sort_fields_canonically(
+        fields: &[Field],
+        extended_after_index: Option<usize>,
+    ) -> Vec<Field> {
+        AsnDefWriter::sort_fields_canonically(fields, extended_after_index)
+    }
+
+    pub fn assign_implicit_tags(fields: &[Field]) -> Vec<Field> {
+        AsnDefWriter::assign_implicit_tags(fields)
+    }
+}
